@@ -299,7 +299,7 @@ func genServerHSCase(t *rapid.T) ServerHSCase {
 			}
 		}
 	}
-	r.Proto = rapid.SampledFrom([][]string{nil, nil, {"chat"}, {"chat, superchat"}, {"superchat,chat"}, {" v2 ,  chat "}, {"other"}, {"chat", "v2"}, {"Chat"}}).Draw(t, "proto")
+	r.Proto = rapid.SampledFrom([][]string{nil, nil, {"chat"}, {"chat, superchat"}, {"superchat,chat"}, {" v2 ,  chat "}, {"other"}, {"chat", "v2"}, {"Chat"}, {"chat/v2"}, {"wamp@v2, x"}, {"mqtt=v2"}, {"v2;q=1"}, {"superchat chat"}, {"x(chat)"}, {"\"chat\""}}).Draw(t, "proto")
 	r.Ext = rapid.SampledFrom(extOffers).Draw(t, "ext")
 	switch rapid.IntRange(0, 3).Draw(t, "subskind") {
 	case 0:
@@ -687,6 +687,23 @@ func checkC12(c ServerHSCase, o *Obs) error {
 				}
 			} else if inter {
 				return fmt.Errorf("no subprotocol selected although client offers %q and server supports %q", v.offers, c.Subs)
+			}
+		}
+		if len(sel) == 1 && !v.protoClean {
+			// an offer the statement does not classify (several lines, elements
+			// that are not tokens): whatever is selected is at least one of the
+			// comma-separated elements the client sent, and one the server supports
+			offered, supported := false, false
+			for _, line := range c.Req.Proto {
+				for _, el := range strings.Split(line, ",") {
+					offered = offered || strings.Trim(el, " \t") == sel[0]
+				}
+			}
+			for _, s := range c.Subs {
+				supported = supported || s == sel[0]
+			}
+			if !offered || !supported {
+				return fmt.Errorf("subprotocol %q selected; the client's offer %q has no such element (server supports %q)", sel[0], c.Req.Proto, c.Subs)
 			}
 		}
 		if len(sel) == 1 {
